@@ -94,6 +94,13 @@ func vbNew(maxReqs int) *vbHarness {
 		},
 	}
 	h.svc.DatabaseNode.WriteTimeout = 1
+	// the window between swapBuffers() and the copy of the waiting list: OnBeforeInsert runs there (in
+	// production it takes another service's mutex via PlanFlush), so another client can push meanwhile
+	h.svc.OnBeforeInsert = func() {
+		if !h.healthy && h.issued < h.maxReqs && vrt.Bool("push-before-insert") {
+			h.push()
+		}
+	}
 	h.svc.V3Session = func() (ch_wrapper.IChClient, error) {
 		if !h.healthy && vrt.Bool("connect-refused") {
 			return nil, errors.New("connection refused")
@@ -109,9 +116,9 @@ func vbNew(maxReqs int) *vbHarness {
 // that INSERT failed; and every request gets exactly one answer once the database keeps answering.
 func VH_C01_batcher() {
 	vrt.Unwind(200)
-	steps, maxReqs := 5, 2
+	steps, maxReqs := 4, 2
 	if vrt.Thorough() {
-		steps, maxReqs = 7, 3
+		steps, maxReqs = 6, 3
 	}
 	h := vbNew(maxReqs)
 	for s := 0; s < steps; s++ {
